@@ -65,6 +65,7 @@ type env struct {
 	nmCfg, nfsCfg      map[string][]byte
 	nodes              []*keys.PrivateKey
 	irs                []*keys.PrivateKey
+	rot                int
 	cids               [][]byte
 	owners             [][]byte
 	epoch              int64
@@ -298,6 +299,48 @@ func (e *env) auditPut(epoch int64, cid []byte, from *keys.PrivateKey, isIR bool
 	}
 	b.Eval(fmt.Sprintf("audit.put|%s|e%d|%s", sd, epoch, r.State), true)
 	e.auditSweep(r)
+}
+
+// auditRotation: the NeoFSAlphabet role is re-designated in block N (one member dismissed, a fresh key
+// appointed); block N+1 carries an audit result of the dismissed member (must be refused) and one of
+// the appointed member (must be stored).
+func (e *env) auditRotation() {
+	b := e.b
+	j := b.Rng.IntN(len(e.irs))
+	old := e.irs[j]
+	e.rot++
+	fresh := world.Key(b.Seed, b.Index, "ir-rotated", e.rot)
+	next := append([]*keys.PrivateKey{}, e.irs...)
+	next[j] = fresh
+	if err := e.w.DesignateIR(world.Pubs(next)); err != nil {
+		b.Inconclusive("re-designation of the Inner Ring: " + err.Error())
+		return
+	}
+	b.Tx(1)
+	e.irs = next
+	epoch, cid := runner.Pick(b.Rng, epochPool), runner.Pick(b.Rng, e.cids)
+	e.seq++
+	rawOld := auditBlob(epoch, cid, old.PublicKey().Bytes(), 0, e.seq)
+	e.seq++
+	rawNew := auditBlob(epoch, cid, fresh.PublicKey().Bytes(), 0, e.seq)
+	rs := e.w.Block(e.w.Prepare([]world.SignerSpec{world.G(world.Single(old))}, e.aud, "put", rawOld),
+		e.w.Prepare([]world.SignerSpec{world.G(world.Single(fresh))}, e.aud, "put", rawNew))
+	b.Tx(2)
+	// (the storage diff of a block is not attributable to one of its transactions: that nothing of the
+	// refused result was stored is decided by the sweep below, whose model does not contain it)
+	if rs[0].Halted() {
+		b.Violation("audit.put from a member dismissed by the re-designation in the previous block was stored", e.detail(rs[0]))
+	}
+	if !rs[1].Halted() {
+		b.Violation(fmt.Sprintf("audit.put from the member appointed in the previous block was refused: %s", rs[1].Fault), e.detail(rs[1]))
+	} else {
+		pub := fresh.PublicKey().Bytes()
+		id := auditID(epoch, cid, pub)
+		e.audits[string(id)] = &auditEntry{epoch: epoch, cid: cid, from: pub, raw: rawNew, id: id}
+	}
+	b.Hit("audit.put-right-after-inner-ring-rotation")
+	b.Eval(fmt.Sprintf("audit.put|rotation|%s|%s", rs[0].State, rs[1].State), true)
+	e.auditSweep(rs[1])
 }
 
 func (e *env) auditSweep(tr *world.TxResult) {
@@ -792,6 +835,8 @@ func runC20(b *runner.Batch) {
 		case k < 5:
 			e.seq++
 			e.repPut(runner.Pick(r, epochPool), runner.Pick(r, e.peers), []byte(fmt.Sprintf("val-%d", e.seq)), e.pickAlpha(8))
+		case k < 9 && r.IntN(12) == 0:
+			e.auditRotation()
 		case k < 9:
 			isIR := r.IntN(5) != 0
 			from := runner.Pick(r, e.irs)
@@ -865,7 +910,7 @@ func init() {
 			return 144
 		},
 		Chunk: 4,
-		Floors: []string{"reputation.put", "audit.put", "audit.put-refused-non-member", "estimation.put", "estimation-refused-node-outside-previous-map", "estimation-node-cleanup-fired", "estimation-node-cleanup-boundary-kept",
+		Floors: []string{"reputation.put", "audit.put", "audit.put-refused-non-member", "audit.put-right-after-inner-ring-rotation", "estimation.put", "estimation-refused-node-outside-previous-map", "estimation-node-cleanup-fired", "estimation-node-cleanup-boundary-kept",
 			"estimation-total-cleanup-fired", "estimation-total-cleanup-boundary-kept", "neofsid.addKey", "neofsid.removeKey", "netmap.setConfig", "neofs.setConfig"},
 		Run: runC20,
 	})
